@@ -350,14 +350,17 @@ func main() {
 		id++
 	}
 
-	coinOps := []string{"cadd", "csub", "csafesub", "cvalid", "camount", "cgte", "cgt", "canygte", "cequal", "czero"}
+	coinOps := []string{"cadd", "csub", "csafesub", "cvalid", "camount", "cgte", "cgt", "canygte", "cequal", "czero", "cnew", "cadd"}
 	for id < *n {
 		if r.Chance(3, 10) {
 			// coins
 			op := coinOps[r.Intn(len(coinOps))]
-			valid := !r.Chance(1, 6) || op != "cvalid"
+			valid := true
 			if op == "cvalid" {
 				valid = r.Bool()
+			}
+			if (op == "cadd" || op == "cnew" || op == "czero") && r.Chance(1, 3) {
+				valid = false // sorted operands that contain zero (and negative) amounts, often adjacent
 			}
 			a := randCoins(r, valid)
 			var b sdk.Coins
@@ -366,8 +369,22 @@ func main() {
 			} else {
 				b = randCoins(r, true)
 			}
+			if !valid && r.Bool() { // runs of adjacent zero coins
+				for i := range a {
+					if r.Chance(1, 2) {
+						a[i].Amount = sdk.ZeroInt()
+					}
+				}
+			}
 			if r.Chance(1, 4) {
 				a, b = b, a
+			}
+			if op == "cnew" { // arbitrary order, possibly duplicates
+				a = append(a, b...)
+				for i := range a {
+					j := i + r.Intn(len(a)-i)
+					a[i], a[j] = a[j], a[i]
+				}
 			}
 			if op == "cvalid" && r.Chance(1, 4) && len(a) >= 2 { // unsorted / duplicate
 				if r.Bool() {
@@ -415,6 +432,9 @@ func main() {
 				case "cequal":
 					args = []string{coinsStr(a), coinsStr(b)}
 					return b2s(a.IsEqual(b))
+				case "cnew":
+					args = []string{coinsStr(a)}
+					return coinsStr(sdk.NewCoins(copyCoins(a)...))
 				case "czero":
 					args = []string{coinsStr(a)}
 					return b2s(a.IsZero())
